@@ -16,7 +16,7 @@ class C19(Plugin):
     shard = 400
     impl_jobs = 4
     design_ref = "DESIGN.md 4/C19, 3.8"
-    rule = ("case = (duration d, delay before the first poll p0, inner completion time ti or never, inner result) through the "
+    rule = ("case = (duration d, delay before the first poll p0, inner completion time ti or never, inner result, handover: first poll by a throw-away waker and then driven by another task) through the "
             "public TimeoutLayer around a scripted inner service under tokio's paused clock; observed: result, resolution time, "
             "instant at which the inner future was dropped; non-trivial = ti within 2 ms of d or p0 > 0; distinct = distinct tuples")
     trusted = ["modelled (not verified): Timeout::call, TimeoutFuture::poll", "oracle O4: tokio paused clock at 1 ms granularity"]
@@ -31,16 +31,18 @@ class C19(Plugin):
         for d, ti, p0 in itertools.product(grid_d, grid_ti, grid_p0):
             for r in (["O", 7], ["E", 3]):
                 cases.append([d, p0, ti, r])
+                if r[0] == "O":
+                    cases.append([d, p0, ti, r, 1])       # first poll by one task, then handed to another
         n = 500 if tier == "quick" else 20000
         for _ in range(n):
             d = rng.randint(0, 50)
             ti = rng.choice([None, d, d + 1, max(0, d - 1), rng.randint(0, 80)])
-            cases.append([d, rng.choice([0, 0, 0, rng.randint(0, 60)]), ti, [rng.choice("OE"), rng.randint(0, 9)]])
+            cases.append([d, rng.choice([0, 0, 0, rng.randint(0, 60)]), ti, [rng.choice("OE"), rng.randint(0, 9)], rng.choice([0, 0, 1])])
         return cases, {"rule": f"exhaustive grid d x ti x p0 x result ({len(grid_d) * len(grid_ti) * len(grid_p0) * 2} points) + {n} random", "exhaustive": False}
 
     def impl_line(self, c):
-        d, p0, ti, r = c
-        return f"{d} {p0} {'-' if ti is None else ti} {r[0]}{r[1]}"
+        d, p0, ti, r = c[:4]
+        return f"{d} {p0} {'-' if ti is None else ti} {r[0]}{r[1]} {c[4] if len(c) > 4 else 0}"
 
     def parse_obs(self, c, line):
         f = line.split()
@@ -49,8 +51,8 @@ class C19(Plugin):
         return {"res": f[0], "at": None if f[1] == "-" else int(f[1]), "dropped": None if f[2] == "-" else int(f[2])}
 
     def coq_case(self, c):
-        d, p0, ti, r = c
-        return f"mkT {d} {p0} {optN(ti)} ({'IOk' if r[0] == 'O' else 'IErr'} {r[1]})"
+        d, p0, ti, r = c[:4]
+        return f"mkT {d} {p0} {optN(ti)} ({'IOk' if r[0] == 'O' else 'IErr'} {r[1]}) {'true' if len(c) > 4 and c[4] else 'false'}"
 
     def coq_obs(self, o):
         r = o["res"]
@@ -65,22 +67,25 @@ class C19(Plugin):
         return f"(({res}, {optN(o['at'])}), {optN(o['dropped'])})"
 
     def nontrivial_key(self, c, o):
-        d, p0, ti, r = c
+        d, p0, ti, r = c[:4]
         if p0 > 0 or (ti is not None and abs(ti - d) <= 2):
             return repr(c)
         return None
 
     def shrinks(self, c):
-        d, p0, ti, r = c
+        d, p0, ti, r = c[:4]
+        h = c[4] if len(c) > 4 else 0
+        if h:
+            yield [d, p0, ti, r, 0]
         if p0:
-            yield [d, 0, ti, r]
+            yield [d, 0, ti, r, h]
         if d:
-            yield [d - 1, p0, ti, r]
+            yield [d - 1, p0, ti, r, h]
         if ti:
-            yield [d, p0, ti - 1, r]
+            yield [d, p0, ti - 1, r, h]
 
     def histogram(self, cases, obss):
-        h = {"result": {}}
+        h = {"result": {}, "handover": sum(1 for c in cases if isinstance(c, list) and len(c) > 4 and c[4])}
         for o in obss:
             k = o["res"][0] if o["res"][0] in "OE" else o["res"]
             h["result"][k] = h["result"].get(k, 0) + 1
